@@ -523,3 +523,62 @@ def _alias_of(arm: ast.If, field: str) -> str:
             if isinstance(a, ast.Assign) and len(a.targets) == 1 and isinstance(a.targets[0], ast.Name) and f"event.{field}" in unparse(a.value):
                 return a.targets[0].id
     return "\0"
+
+
+# -- attributes derived from an attribute that a copy constructor overrides ---------------------------
+
+
+def derived_state(check: Check, repo: Repo, rule: str = "DERIVED-STATE") -> None:
+    check.rule(
+        rule,
+        "when a copy constructor of the executor (a method that does `x = copy(self)`) overrides an attribute "
+        "A of the copy (root_value for a subscription event, collected_errors ...), every attribute whose "
+        "__init__ value was computed from A's constructor argument (a tuple / dict / object capturing it) is "
+        "re-derived for the copy as well; otherwise the copy answers partly from the original's A - "
+        "info.root_value of a per-event execution would be the subscription's root value, not the event",
+    )
+    classes = ClassIndex(repo)
+    base = classes.get("execution.executor", "Executor")
+    n = 0
+    for ci in [base, *classes.subclasses(base)]:
+        mro = classes.mro(ci)
+        param_attr: dict[str, str] = {}
+        init_values: dict[str, ast.AST] = {}
+        for c in reversed(mro):
+            init = c.methods().get("__init__")
+            if init is None:
+                continue
+            for s in walk_body(init):
+                if isinstance(s, (ast.Assign, ast.AnnAssign)) and s.value is not None:
+                    tg = s.targets[0] if isinstance(s, ast.Assign) else s.target
+                    if isinstance(tg, ast.Attribute) and unparse(tg.value) == "self":
+                        init_values[tg.attr] = s.value
+                        if isinstance(s.value, ast.Name):
+                            param_attr[s.value.id] = tg.attr
+        derived: dict[str, set[str]] = {}  # attr A -> attrs computed from A's source
+        for b, v in init_values.items():
+            for x in ast.walk(v):
+                a = None
+                if isinstance(x, ast.Name) and x.id in param_attr and param_attr[x.id] != b and not isinstance(v, ast.Name):
+                    a = param_attr[x.id]
+                elif isinstance(x, ast.Attribute) and unparse(x.value) == "self" and x.attr in init_values and x.attr != b:
+                    a = x.attr
+                if a is not None:
+                    derived.setdefault(a, set()).add(b)
+        for m in ci.methods().values():
+            copies = [s for s in walk_body(m) if isinstance(s, ast.Assign) and isinstance(s.value, ast.Call) and call_name(s.value) == "copy"
+                      and [unparse(a) for a in s.value.args] == ["self"] and isinstance(s.targets[0], ast.Name)]
+            if not copies:
+                continue
+            var = copies[0].targets[0].id
+            assigned = {s.targets[0].attr for s in walk_body(m)
+                        if isinstance(s, ast.Assign) and isinstance(s.targets[0], ast.Attribute) and unparse(s.targets[0].value) == var}
+            for a in sorted(assigned):
+                stale = sorted(derived.get(a, set()) - assigned)
+                n += 1
+                check.ob(rule, m, f"{ci.name}.{m.name}: {var}.{a} overridden", not stale,
+                         f"no other attribute is computed from {a}" if not derived.get(a) else
+                         (f"derived attribute(s) {sorted(derived[a])} re-assigned too" if not stale else
+                          f"attribute(s) {stale} were computed in __init__ from `{a}` and are not re-derived for the copy: they still hold the original's value"))
+    if n < 2:
+        raise AnalysisError("DERIVED-STATE: copy constructors of the executor not found")
